@@ -35,6 +35,7 @@ func c02(c *Ctx) (*report.Result, error) {
 		res.RuleDoc["O2.5"] = "a message handed to a target stream is a fresh object: nothing reachable from it is written after the hand-over (the sender goroutine rewrites ids in it later)"
 		checkNoWriteAfterHandover(c, res, "O2.5", f, "routed message")
 		checkFreshPerHandover(c, res, "O2.5", f)
+		checkBatchBuffersFresh(c, res, "O2.5", f)
 	}
 	res.RuleDoc["O2.6"] = "delivery cannot wedge on the registries' locks: no critical section of package proxy re-acquires its own mutex and the mutexes nest in one order (same analysis as O8.6) - every task passes through the shard manager's channel table and the stream tracker on its way to the target"
 	if spx, err := c.Prog.SSAPkg("proxy"); err == nil {
@@ -960,5 +961,49 @@ func checkFreshPerHandover(c *Ctx, res *report.Result, rule string, f *ssa.Funct
 	}
 	if n < 2 {
 		res.Undec(rule, shortFn(f)+": hand-overs in loops", fnPos(c.Prog, f), fmt.Sprintf("%d found, 3 confirmed by hand (local watermark fan-out, remote watermark fan-out, task retry loop)", n))
+	}
+}
+
+// checkBatchBuffersFresh: the per-target task slices that go into hand-over messages are built afresh for every
+// batch: the grouping map is created after the batch was received (inside the receive loop) and no task slice is
+// re-sliced to length zero for reuse. A message queued for a slow target keeps the backing array of its task slice;
+// a reused buffer is overwritten by the next batch while that message is still waiting.
+func checkBatchBuffersFresh(c *Ctx, res *report.Result, rule string, f *ssa.Function) {
+	isTaskSlice := func(t types.Type) bool {
+		sl, ok := t.Underlying().(*types.Slice)
+		if !ok {
+			return false
+		}
+		return strings.Contains(sl.Elem().String(), "ReplicationTask")
+	}
+	var recv ssa.Instruction
+	for _, call := range flow.Calls(f) {
+		if call.Common().IsInvoke() && call.Common().Method.Name() == "Recv" {
+			recv = call
+		}
+	}
+	n := 0
+	for _, b := range f.Blocks {
+		for _, ins := range b.Instrs {
+			switch x := ins.(type) {
+			case *ssa.MakeMap:
+				mt, ok := x.Type().Underlying().(*types.Map)
+				if !ok || !isTaskSlice(mt.Elem()) {
+					continue
+				}
+				n++
+				res.Check(recv != nil && flow.InstrDominates(recv, x), rule, "recvReplicationMessages: the per-target grouping map is created per batch", instrPos(c.Prog, x), "make(map[..][]*ReplicationTask) after Recv, inside the loop", "the grouping map outlives a batch: its slices (and their backing arrays) are shared with messages of earlier batches that may still be queued for a slow target")
+			case *ssa.Slice:
+				if !isTaskSlice(x.X.Type()) && !isTaskSlice(x.Type()) {
+					continue
+				}
+				if k, isK := flow.ConstInt(x.High); isK && k == 0 {
+					res.Viol(rule, "recvReplicationMessages: task slices are not recycled", instrPos(c.Prog, x), "a task slice is re-sliced to length 0 for reuse: the next append overwrites the backing array that a message still queued for a slow target refers to - its tasks are replaced by later ones (lost, and the later ones delivered twice)")
+				}
+			}
+		}
+	}
+	if n == 0 {
+		res.Undec(rule, "recvReplicationMessages: per-target grouping map", fnPos(c.Prog, f), "no map of task slices found")
 	}
 }
